@@ -571,7 +571,7 @@ theorem C12_ndl_int (P : Prims) (E : Env) (n : Bool) (c : Nat) (v r : V)
     · simp only [ht] at h'
       have hr : r = .int c 0 := by
         cases c with
-        | zero => simp [intAfter, isInstT, isInst, V.cls?, Base.sub] at h'; exact h'.symm
+        | zero => simp [intAfter, intOfInst, isInstT, isInst, V.cls?, Base.sub] at h'; exact h'.symm
         | succ k => simp [intAfter, isInstT, V.cls?, intFinish, decimalOf, decFinExp0, intOfDec] at h'; exact h'.symm
       refine ⟨0, hr, ?_⟩
       cases v <;> simp at hv
@@ -930,6 +930,14 @@ example : ∃ (P : Prims) (E : Env) (v r : V),
     inGroup .decimal v = false ∧ docException .decimal v = true :=
   ⟨{ P0 with decOfStr := fun _ => .ok (.fin false 15 (-1)) }, E0, .str 0 "1.5", .dec 0 (.fin false 15 (-1)),
     by rfl, by rfl, by rfl, by rfl⟩
+
+/-- fixed finding `int-from-sequence-keeps-bool`: a bool taken out of a one-item sequence becomes the int 1 / 0, exactly as
+a bare bool does (before the fix `_attempt_from_number` unwrapped `[True]` and `isinstance(data, t)` handed the bool back) -/
+theorem C12_int_from_sequence_bool_fixed :
+    (∀ d, toInteger P0 E0 ⟨false, d⟩ 0 (.seq .list 0 [.bool true]) = .ok (.int 0 1)) ∧
+    toInteger P0 E0 ⟨false, false⟩ 0 (.bool true) = .ok (.int 0 1) := by
+  refine ⟨fun d => ?_, by rfl⟩
+  cases d <;> rfl
 
 /-- the enum of the fixed finding `enum-name-shadows-value`: `class E(Enum): A = 'B'; B = 'C'` -/
 def Eab : Env := ⟨[{ memberType := none, members := [("A", .str 0 "B"), ("B", .str 0 "C")] }]⟩
